@@ -16,7 +16,7 @@ func init() {
 	Registry["C16"] = &Property{
 		Title:       "No input or interleaving crashes or wedges frps or frpc",
 		Run:         runC16,
-		Explanation: "Decides crash/wedge hazards that are visible in the shape of the code: (R1) every read, write, delete and range of a map field of a struct that carries a mutex happens with that mutex held (write mode for mutations), outside constructors; (R2) every make(chan|slice|map, n) whose size derives from a protocol message field is bounded below by a dominating comparison; (R3) channel typestate: each struct-field channel has one close site, protected against a second close (sync.Once, flag or select-probe under a mutex, single-shot worker, owner-terminal Close), and every send on a channel that is closed somewhere is recover-protected or in the closing goroutine; (R4) the unchecked type assertion in each dispatcher handler matches the message type it is registered for; (R6) every value handed to msg.WriteMsg / Dispatcher.Send / MessageTransporter.Send is a pointer to a registered message struct; (R8) handlers that wait (NAT-hole, work-connection requests) are registered through AsyncHandler; (R9) no function returns while holding a mutex it locked (unless a deferred unlock is registered); (R10) results of a failed call are not dereferenced on the path where its error is non-nil. Not decided: data races on non-map state, deadlocks between locks and channels, memory exhaustion, panics inside dependencies.",
+		Explanation: "Decides crash/wedge hazards that are visible in the shape of the code: (R1) every read, write, delete and range of a map field of a struct that carries a mutex happens with that mutex held (write mode for mutations), outside constructors; (R2) every make(chan|slice|map, n) whose size derives from a protocol message field is bounded below by a dominating comparison; (R3) channel typestate: each struct-field channel has one close site, protected against a second close (sync.Once, flag or select-probe under a mutex, single-shot worker, owner-terminal Close), and every send on a channel that is closed somewhere is recover-protected or in the closing goroutine; (R4) the unchecked type assertion in each dispatcher handler matches the message type it is registered for; (R6) every value handed to msg.WriteMsg / Dispatcher.Send / MessageTransporter.Send is a pointer to a registered message struct; (R8) handlers that wait (NAT-hole, work-connection requests) are registered through AsyncHandler; (R9) no function returns while holding a mutex it locked (unless a deferred unlock is registered); (R10) results of a failed call are not dereferenced on the path where its error is non-nil. (R11) no two mutex fields are acquired in both orders (lock-order graph over must-held sets, through statically called functions, is acyclic). (R12) the retry loop that fetches a work connection is bounded by the clamped pool count plus one, never by a raw message field (a non-positive bound skips the loop and hands a nil connection to callers that dereference it). Not decided: data races on non-map state, deadlocks between locks and channels, memory exhaustion, panics inside dependencies.",
 		Assumptions: commonAssumptions,
 	}
 }
@@ -31,6 +31,8 @@ func runC16(c *engine.Ctx) {
 	c16LockBalance(c, li)
 	c16ErrorPathDeref(c)
 	c16Panics(c)
+	c16LockOrder(c, li, "R11")
+	c16RetryBound(c, "R12")
 }
 
 func isMutexType(t types.Type) bool {
@@ -566,9 +568,11 @@ func c16LockBalance(c *engine.Ctx, li *engine.LockInfo) {
 
 // ---- R10 ----
 
-func c16ErrorPathDeref(c *engine.Ctx) {
+func c16ErrorPathDeref(c *engine.Ctx) { c16ErrorPathDerefRule(c, "R10") }
+
+func c16ErrorPathDerefRule(c *engine.Ctx, rule string) {
 	p := c.P
-	c.Rule("R10", "pointer results of a repo function that also returns an error are not dereferenced on a path where that error is known non-nil (nil-dereference panic on the failure path)")
+	c.Rule(rule, "pointer results of a repo function that also returns an error are not dereferenced on a path where that error is known non-nil (nil-dereference panic on the failure path)")
 	n := 0
 	errT := types.Universe.Lookup("error").Type()
 	for _, f := range p.RepoFuncs() {
@@ -599,6 +603,8 @@ func c16ErrorPathDeref(c *engine.Ctx) {
 					if ex, ok := r.(*ssa.Extract); ok && ex.Index < tup.Len()-1 {
 						if _, isPtr := ex.Type().Underlying().(*types.Pointer); isPtr {
 							ptrs = append(ptrs, ex)
+						} else if _, isIface := ex.Type().Underlying().(*types.Interface); isIface {
+							ptrs = append(ptrs, ex) // a method call on a nil interface panics too
 						}
 					}
 				}
@@ -631,6 +637,9 @@ func c16ErrorPathDeref(c *engine.Ctx) {
 					if fa, ok := x.(*ssa.FieldAddr); ok {
 						return st.Resolve(fa.X) == ssa.Value(ex)
 					}
+					if ci, ok := x.(ssa.CallInstruction); ok && ci.Common().IsInvoke() {
+						return st.Resolve(ci.Common().Value) == ssa.Value(ex)
+					}
 					// closure capturing a cell that currently holds ex, and dereferencing it inside
 					if mc, ok := x.(*ssa.MakeClosure); ok {
 						cfn, _ := mc.Fn.(*ssa.Function)
@@ -652,13 +661,55 @@ func c16ErrorPathDeref(c *engine.Ctx) {
 				var hit ssa.Instruction
 				q.Event = func(x ssa.Instruction) string { return "" }
 				// explore manually: use Event with access to state is not available, so use Sink predicate per instruction
-				states, err := (&engine.PathQuery{Fn: f, From: call, Sink: func(x ssa.Instruction) bool {
-					switch x.(type) {
-					case *ssa.FieldAddr, *ssa.MakeClosure:
+				// candidate dereference sites: the operand is the result itself, a phi, or a load of a local cell of
+				// the result's type (everything else cannot resolve to the result on any path)
+				mayBe := func(v ssa.Value) bool {
+					if v == ssa.Value(ex) {
 						return true
 					}
-					return engine.IsReturn(x)
-				}, ContinueAfterSink: true}).Run()
+					if !types.Identical(v.Type(), ex.Type()) {
+						return false
+					}
+					switch y := v.(type) {
+					case *ssa.Phi:
+						return true
+					case *ssa.UnOp:
+						if y.Op == token.MUL {
+							switch y.X.(type) {
+							case *ssa.Alloc, *ssa.FreeVar:
+								return true
+							}
+						}
+					}
+					return false
+				}
+				cand := map[ssa.Instruction]bool{}
+				engine.ForEachInstr(f, func(x ssa.Instruction) {
+					switch y := x.(type) {
+					case *ssa.FieldAddr:
+						if mayBe(y.X) {
+							cand[x] = true
+						}
+					case *ssa.MakeClosure:
+						for _, b := range y.Bindings {
+							if al, ok := b.(*ssa.Alloc); ok && types.Identical(engine.Deref(al.Type()), ex.Type()) {
+								cand[x] = true
+							}
+						}
+					case ssa.CallInstruction:
+						if y.Common().IsInvoke() && mayBe(y.Common().Value) {
+							cand[x] = true
+						}
+					}
+				})
+				if len(cand) == 0 {
+					n++
+					c.Hold(fmt.Sprintf("%s>%s#%d", p.FuncName(f), cf.Name(), ex.Index), call.Pos(), 1, nil, "failed-call result is never dereferenced in this function")
+					continue
+				}
+				states, err := (&engine.PathQuery{Fn: f, From: call, Sink: func(x ssa.Instruction) bool {
+					return cand[x] || engine.IsReturn(x)
+				}, ContinueAfterSink: true, Track: invokeReceivers(f, ex.Type())}).Run()
 				_ = q
 				if err != nil {
 					return
@@ -760,4 +811,160 @@ func helperNonNegative(call *ssa.Call, depth int) bool {
 		}
 	}
 	return true
+}
+
+// c16LockOrder: no two mutex fields are acquired in both orders. Two goroutines taking them in opposite orders wedge
+// each other for good (and everything that later needs either lock), which the property forbids for every interleaving.
+func c16LockOrder(c *engine.Ctx, li *engine.LockInfo, rule string) {
+	c.Rule(rule, "lock order: the graph 'mutex field A is held while mutex field B is acquired (directly or in a statically called function)' has no cycle")
+	p := c.P
+	edges := li.LockOrder()
+	name := func(v *types.Var) string {
+		pk := ""
+		if v.Pkg() != nil {
+			pk = strings.TrimPrefix(v.Pkg().Path(), engine.ModPath+"/")
+		}
+		return pk + "." + ownerOf(p, v) + "." + v.Name()
+	}
+	adj := map[*types.Var]map[*types.Var]engine.LockEdge{}
+	for _, e := range edges {
+		if adj[e.From] == nil {
+			adj[e.From] = map[*types.Var]engine.LockEdge{}
+		}
+		if _, ok := adj[e.From][e.To]; !ok {
+			adj[e.From][e.To] = e
+		}
+	}
+	// reachability (the graph is tiny)
+	reach := func(a, b *types.Var) bool {
+		seen := map[*types.Var]bool{}
+		var dfs func(x *types.Var) bool
+		dfs = func(x *types.Var) bool {
+			if x == b {
+				return true
+			}
+			if seen[x] {
+				return false
+			}
+			seen[x] = true
+			for y := range adj[x] {
+				if dfs(y) {
+					return true
+				}
+			}
+			return false
+		}
+		for y := range adj[a] {
+			if dfs(y) {
+				return true
+			}
+		}
+		return false
+	}
+	type pair struct{ a, b string }
+	var keys []string
+	desc := map[string]engine.LockEdge{}
+	for a, m := range adj {
+		for b, e := range m {
+			k := name(a) + "->" + name(b)
+			keys = append(keys, k)
+			desc[k] = e
+		}
+	}
+	sort.Strings(keys)
+	n := 0
+	for _, k := range keys {
+		e := desc[k]
+		n++
+		via := ""
+		if e.Via != nil {
+			via = " (inside " + p.FuncName(e.Via) + ")"
+		}
+		if reach(e.To, e.From) {
+			c.Violate("order:"+k, e.Site.Pos(), []string{"edge at " + p.Pos(posOf(e.Site)) + via}, "%s is acquired while %s is held%s, and elsewhere the opposite order occurs: two goroutines can block each other forever", name(e.To), name(e.From), via)
+		} else {
+			c.Hold("order:"+k, e.Site.Pos(), 1, []string{"edge at " + p.Pos(posOf(e.Site)) + via}, "no path acquires these two locks in the opposite order")
+		}
+	}
+	c.Floor(n, 3)
+}
+
+// ownerOf returns the name of the struct type that declares field v (best effort, for report keys).
+func ownerOf(p *engine.Prog, v *types.Var) string {
+	for _, pk := range p.Pkgs {
+		if pk.Types != v.Pkg() {
+			continue
+		}
+		sc := pk.Types.Scope()
+		for _, nm := range sc.Names() {
+			tn, ok := sc.Lookup(nm).(*types.TypeName)
+			if !ok {
+				continue
+			}
+			st, ok := tn.Type().Underlying().(*types.Struct)
+			if !ok {
+				continue
+			}
+			for i := 0; i < st.NumFields(); i++ {
+				if st.Field(i) == v {
+					return tn.Name()
+				}
+			}
+		}
+	}
+	return "?"
+}
+
+// invokeReceivers lists the receivers of interface method calls in f whose static type is t (tracked so that a
+// variable reassigned from a call result resolves to that result on the path).
+func invokeReceivers(f *ssa.Function, t types.Type) []ssa.Value {
+	var out []ssa.Value
+	engine.ForEachInstr(f, func(in ssa.Instruction) {
+		if ci, ok := in.(ssa.CallInstruction); ok && ci.Common().IsInvoke() && types.Identical(ci.Common().Value.Type(), t) {
+			out = append(out, ci.Common().Value)
+		}
+	})
+	return out
+}
+
+// c16RetryBound (R12, the crash side of C11.R5): GetWorkConnFromPool's callers use the returned connection without a
+// nil check when err == nil; the loop must therefore run at least once, which holds because its bound is
+// BaseProxy.poolCount+1 and poolCount is clamped to >= 0 when the control is built (C11.R2). A bound taken from the
+// peer's login message is attacker-chosen and may be negative.
+func c16RetryBound(c *engine.Ctx, rule string) {
+	c.Rule(rule, "BaseProxy.GetWorkConnFromPool: the retry loop's bound is poolCount+1 with poolCount the proxy's clamped copy; no field of a protocol message flows into the bound")
+	p := c.P
+	n := 0
+	f := fn(c, "server/proxy.BaseProxy.GetWorkConnFromPool")
+	bpc := field(c, "server/proxy", "BaseProxy", "poolCount")
+	writeMsg := funcObj(c, "pkg/msg", "WriteMsg")
+	if f == nil || bpc == nil || writeMsg == nil {
+		return
+	}
+	for _, w := range engine.CallsTo(f, writeMsg) {
+		h := engine.LoopHeader(w.Block())
+		if h == nil {
+			continue
+		}
+		n++
+		ok, why := false, "loop condition not recognised"
+		if t, isIf := h.Instrs[len(h.Instrs)-1].(*ssa.If); isIf {
+			if bo, isBin := t.Cond.(*ssa.BinOp); isBin && bo.Op == token.LSS {
+				src := engine.Provenance(bo.Y, engine.ProvOpts{})
+				ok, why = src.HasField(bpc), "bound does not derive from BaseProxy.poolCount"
+				for fv := range src.Fields {
+					if fv.Pkg() != nil && strings.HasSuffix(fv.Pkg().Path(), "/pkg/msg") {
+						ok, why = false, "bound derives from the message field "+fv.Name()+" (peer-chosen, may be negative)"
+					}
+				}
+				if add, isAdd := bo.Y.(*ssa.BinOp); !(isAdd && add.Op == token.ADD) {
+					ok, why = false, "bound is not poolCount+1"
+				} else if k, isK := engine.ConstInt(add.Y); !(isK && k >= 1) {
+					ok, why = false, "bound is not poolCount+1"
+				}
+			}
+		}
+		c.Check(ok, p.FuncName(f)+">retry-bound", w.Pos(), 2, nil, "the loop runs at least once: bound is the clamped poolCount + 1 (%s)", why)
+	}
+	c.Floor(n, 1)
 }
